@@ -86,6 +86,9 @@ type c32Tags struct {
 	PVEnc int     `json:"pv_enc"`
 	PVDec int     `json:"pv_dec"`
 	Tags  []c32KV `json:"tags"`
+	// Prev: tags the same member advertised before (the decoding node learns
+	// them at the member's join and the new ones through a metadata update)
+	Prev []c32KV `json:"prev,omitempty"`
 }
 
 type c32Relay struct {
@@ -419,6 +422,15 @@ func genC32(t *rapid.T) c32Case {
 			PVEnc: rapid.IntRange(2, 5).Draw(t, "pv_enc"),
 			PVDec: rapid.IntRange(2, 5).Draw(t, "pv_dec"),
 			Tags:  genC32KVs(t, "tags", 30, 200),
+		}
+		if rapid.Bool().Draw(t, "has-prev") {
+			c.Tags.Prev = genC32KVs(t, "prev", 6, 20)
+			// often overlapping with the new set: same keys with other values, plus keys the new set drops
+			for i, kv := range c.Tags.Tags {
+				if i < 3 && rapid.Bool().Draw(t, "overlap") {
+					c.Tags.Prev = append(c.Tags.Prev, c32KV{K: kv.K, V: "old"})
+				}
+			}
 		}
 	case "relay":
 		r := &c32Relay{
@@ -770,6 +782,36 @@ func bodyC32Tags(c *c32Tags, x *vkit.Ctx) {
 	if !eqLoose(got, want) {
 		x.Violationf(fmt.Sprintf("tags-roundtrip:pv%d", min(c.PVEnc, 3)), "tags encoded at protocol %d decode (at protocol %d) to %v, want %v", c.PVEnc, c.PVDec, got, want)
 		return
+	}
+	// ... and the same at member level: the decoding node learned the member
+	// with its previous tags and now receives the new set as a metadata update;
+	// what it lists for the member afterwards is the new set, nothing else
+	// (the metadata always fits here, larger sets are the limit cases' job)
+	prevEnc := a.Serf.VerifEncodeTags(c32Map(c.Prev))
+	if len(enc) <= memberlist.MetaMaxSize && len(prevEnc) <= memberlist.MetaMaxSize {
+		peer := func(meta []byte) *memberlist.Node {
+			return &memberlist.Node{Name: "tagged-peer", Addr: net.IPv4(10, 1, 2, 3), Port: 7946, Meta: meta, PMin: 1, PMax: 5, PCur: 2, DMin: 2, DMax: 5, DCur: uint8(c.PVEnc)}
+		}
+		b.Serf.VerifEventDelegate().NotifyJoin(peer(prevEnc))
+		b.Serf.VerifEventDelegate().NotifyUpdate(peer(enc))
+		var listed map[string]string
+		found := false
+		for _, m := range b.Serf.Members() {
+			if m.Name == "tagged-peer" {
+				listed, found = m.Tags, true
+			}
+		}
+		if !found {
+			x.Violationf("tags-member-missing", "member not listed after join+update")
+			return
+		}
+		if !eqLoose(listed, want) {
+			x.Violationf("tags-after-update", "a member that advertised %v and then %v (protocol %d) is listed with %v, want %v", c32Map(c.Prev), tags, c.PVEnc, listed, want)
+			return
+		}
+		if len(c.Prev) > 0 {
+			x.Label("tags:update-over-previous-set")
+		}
 	}
 	_, hasRole := tags["role"]
 	if hasRole {
